@@ -207,6 +207,11 @@ class TriangleBoundary(BoundaryDomain):
         sum_close_to_1 = torch.isclose(
             bary_x + bary_y, torch.tensor(1.0), atol=BARY_TOL
         )
+        # only the part of the line bary_x + bary_y = 1 between the two corners
+        sum_close_to_1 = torch.logical_and(
+            sum_close_to_1,
+            torch.logical_and(-BARY_TOL <= bary_x, -BARY_TOL <= bary_y),
+        )
         close_to_0 = torch.logical_or(x_close_to_0, y_close_to_0)
         return torch.logical_or(close_to_0, sum_close_to_1).reshape(-1, 1)
 
